@@ -350,6 +350,10 @@ func (h *hgen) fresh(c string) *Ver {
 	if g.Chance(0.5) {
 		h.addAlias(v, false)
 	}
+	if h.mode == "failed-sync" && g.Chance(0.3) {
+		// create-path failure: the first version of the cluster cannot be applied
+		h.makeFailing(v, nil)
+	}
 	return v
 }
 
@@ -390,7 +394,13 @@ func (h *hgen) mutate(c string) {
 		return
 	}
 	v := prev.clone()
-	v.BadEP = false
+	v.Fail = ""
+	if prev.Fail != "" && g.Chance(0.55) {
+		// partial repair: only the failing field is repaired, every other change of the failed version stays as it is
+		h.feat["partial-repair"] = true
+		h.push(v)
+		return
+	}
 	nm := g.Range(1, 3)
 	for k := 0; k < nm; k++ {
 		switch g.Intn(12) {
@@ -465,11 +475,90 @@ func (h *hgen) mutate(c string) {
 		}
 	}
 	repair(v)
-	if h.mode == "failed-sync" && g.Chance(0.2) {
-		v.BadEP = true
-		h.feat["unparsable-endpoint"] = true
+	if h.mode == "failed-sync" && g.Chance(0.25) {
+		h.makeFailing(v, prev)
 	}
 	h.push(v)
+}
+
+// makeFailing turns v into a version whose sync fails at one sub-syncer, and makes sure that a field handled by the same or a
+// later sub-syncer changes in the same version (the change that a partial repair must not lose).
+func (h *hgen) makeFailing(v, prev *Ver) {
+	g := h.g
+	v.Fail = failKinds[g.Intn(len(failKinds))]
+	otherCert := func(c string) string {
+		for {
+			if n := g.Pick([]string{"", "v1", "v2"}); n != c {
+				return n
+			}
+		}
+	}
+	kind, _ := v.failKind()
+	switch kind {
+	case "ca":
+		if g.Chance(0.7) {
+			v.Cert = otherCert(v.Cert)
+		}
+		if g.Chance(0.4) {
+			v.CA = otherCert(v.CA)
+		}
+	case "keypair":
+		if g.Chance(0.6) {
+			v.CA = otherCert(v.CA)
+		}
+		if g.Chance(0.4) {
+			v.Cert = otherCert(v.Cert)
+		}
+	case "gates":
+		if g.Chance(0.5) {
+			v.Cert = otherCert(v.Cert)
+		}
+	default:
+		if g.Chance(0.5) {
+			h.randPolicies(v)
+			repair(v)
+		}
+		if g.Chance(0.4) {
+			v.Cert = otherCert(v.Cert)
+		}
+	}
+	if g.Chance(0.3) {
+		h.addAlias(v, false)
+	}
+	cl := v.failClass()
+	if prev == nil || prev.Deleted {
+		cl = "create"
+	}
+	h.feat["fail:"+cl] = true
+}
+
+// lastFailClass: the sub-syncer at which the most recent unappliable version of the cluster failed ("create" when that
+// version was the first one the cluster ever had, or the first after a delete).
+func lastFailClass(ups []*Ver, c string) string {
+	out := ""
+	var prev *Ver
+	for _, u := range ups {
+		if u.Cluster != c {
+			continue
+		}
+		if u.Fail != "" {
+			out = u.failClass()
+			if prev == nil || prev.Deleted {
+				out = "create"
+			}
+		}
+		prev = u
+	}
+	return out
+}
+
+func (h *hgen) anyFail() bool {
+	for _, u := range h.ups {
+		if u.Fail != "" {
+			return true
+		}
+	}
+	return false
 }
 
 func (h *hgen) generate() {
@@ -494,7 +583,7 @@ func (h *hgen) generate() {
 			h.mutate(c)
 		}
 	}
-	// the final objects must be jointly appliable: resolve remaining name conflicts and unparsable endpoints
+	// the final objects must be jointly appliable: resolve remaining name conflicts and unappliable versions
 	for round := 0; round < 6; round++ {
 		changed := false
 		for _, c := range clusterNames {
@@ -509,8 +598,8 @@ func (h *hgen) generate() {
 					keep = append(keep, n)
 				}
 			}
-			if len(keep) != len(nv.Names) || nv.BadEP {
-				nv.Names, nv.BadEP = keep, false
+			if len(keep) != len(nv.Names) || nv.Fail != "" {
+				nv.Names, nv.Fail = keep, ""
 				h.push(nv)
 				changed = true
 			}
@@ -618,18 +707,20 @@ type delivery struct {
 }
 
 type runner struct {
-	gw        *bed.Gateway
-	ups       []*Ver
-	objs      []*proxyv1alpha1.UpstreamCluster
-	lister    map[string]*Ver
-	L         int
-	pending   []*pendingItem
-	log       []delivery
-	lastOK    map[string]int // cluster -> version id of the last delivery that was applied without requeue
-	lastTouch map[string]int // cluster -> version id of the last delivery whose object reached ClusterInfo.Sync (applied, or failed half-way)
-	staleSeen bool
-	outcome   map[int]string // version id -> outcome of its last delivery
-	panics    []string
+	gw          *bed.Gateway
+	ups         []*Ver
+	objs        []*proxyv1alpha1.UpstreamCluster
+	lister      map[string]*Ver
+	L           int
+	pending     []*pendingItem
+	log         []delivery
+	lastOK      map[string]int // cluster -> version id of the last delivery that was applied without requeue
+	lastTouch   map[string]int // cluster -> version id of the last delivery whose object reached ClusterInfo.Sync (applied, or failed half-way)
+	staleSeen   bool
+	outcome     map[int]string // version id -> outcome of its last delivery
+	failedSyncs int
+	notFailing  []string
+	panics      []string
 	// emulate: deliver the lister's current object instead of the event's object (what a controller that always syncs
 	// the latest version would do). Only used for the reference run that attributes a divergence, never for a verdict.
 	emulate bool
@@ -673,10 +764,15 @@ func (rn *runner) deliver(what string, v *Ver, obj *proxyv1alpha1.UpstreamCluste
 		}
 		it.n++
 		rn.addPending(it)
-		if v.BadEP && present {
-			// the sync of this version ran until the unparsable endpoint: gates, flow control, secure serving are already applied
-			rn.lastTouch[v.Cluster] = v.ID
-			d.Outcome = "requeue (sync failed half-way)"
+		if present && (cur.Fail != "" || v.Fail != "") {
+			// the sync of an unappliable version ran until the failing sub-syncer; what came before it is already applied
+			rn.lastTouch[v.Cluster] = cur.ID
+			f := cur
+			if f.Fail == "" {
+				f = v
+			}
+			d.Outcome = "requeue (sync failed at " + f.failClass() + ")"
+			rn.failedSyncs++
 		}
 	case !present:
 		d.Outcome = "not in lister: cluster removed"
@@ -684,6 +780,11 @@ func (rn *runner) deliver(what string, v *Ver, obj *proxyv1alpha1.UpstreamCluste
 		delete(rn.lastTouch, v.Cluster)
 	default:
 		d.Outcome = "applied"
+		if cur.Fail != "" {
+			// instrument check: a version meant to be unappliable was applied (counted, the run is then inconclusive)
+			k, _ := cur.failKind()
+			rn.notFailing = append(rn.notFailing, k)
+		}
 		rn.lastOK[v.Cluster] = v.ID
 		rn.lastTouch[v.Cluster] = v.ID
 		if v.ID != cur.ID {
@@ -840,14 +941,16 @@ func TestCheck(t *testing.T) {
 			"flow-control schemas added/removed/resized/type-changed, dispatch policies regenerated, logging switched, aliases added/removed, serving key pair swapped/removed/made incomplete, " +
 			"client CA swapped/removed, earlier values restored, delete and re-create). Three modes: in-order (every update delivered at once, no name conflicts), " +
 			"requeue (aliases may collide with another cluster's, the refused version is requeued and re-delivered later - also after newer versions; the lister may run ahead of the events), " +
-			"failed-sync (as requeue, plus versions with an unparsable endpoint that validation accepts and whose sync fails half-way). Only delivery orders the real informer + passthrough queue " +
+			"failed-sync (as requeue, plus versions that cannot be applied - whether or not admission would have let them through - one kind per sub-syncer of ClusterInfo.Sync: invalid feature-gate annotation, " +
+			"unparsable client CA, mismatched / garbage key pair, unusable endpoint URL appended or first; also as the first version of a cluster = create-path failure; such a version changes other fields too, " +
+			"is requeued and re-delivered, and is followed by a partial repair (only the failing field, every other change stays) or by further changes). Only delivery orders the real informer + passthrough queue " +
 			"can produce. The final objects are always jointly appliable. G_hist = real controller that processed the history; G_fresh = real controller given only the latest objects. " +
 			"Compared after quiescence: host resolution, endpoint set + disabled flags, server names, 4 feature gates, certificate / client CA / verify options, GetFlowSchema(n).String() and measured limits " +
 			"for 5 schema names, MatchAttributes on 7 probes (flow-control name, log flag, candidate endpoints, limiter). Non-trivial = at least two versions of some cluster; distinct = hash of versions + delivery log.")
 		r.Assume("client connection settings are excluded (the statement excepts them); endpoint health is excluded (all endpoints are unreachable in both gateways)")
 		r.Assume("a pending requeue is re-delivered until it succeeds or a whole round of re-deliveries changes nothing")
 
-		nh := r.N(400, 30000)
+		nh := r.N(4000, 30000)
 		workers := runtime.GOMAXPROCS(0)
 		if workers > 16 {
 			workers = 16
@@ -922,6 +1025,11 @@ func TestCheck(t *testing.T) {
 				}
 			}
 			r.Count("redeliveries", nre)
+			r.Count("failed_syncs", rn.failedSyncs)
+			for _, k := range rn.notFailing {
+				r.Count("unappliable_version_was_applied:"+k, 1)
+			}
+			r.Count("unappliable_versions_applied", len(rn.notFailing))
 			r.Count("superseded_versions_applied", nstale)
 			if lag {
 				r.Count("histories_with_lister_ahead", 1)
@@ -952,16 +1060,18 @@ func TestCheck(t *testing.T) {
 				case stale:
 					// the divergence is gone when every delivery is given the lister's current object: a superseded object was synced
 					sig = "C11/superseded-version-synced"
-				case latest != nil && !latest.Deleted && !h.feat["unparsable-endpoint"] && rn.outcome[latest.ID] == "requeue":
+				case latest != nil && !latest.Deleted && rn.outcome[latest.ID] == "requeue":
 					// steady state in which the controller keeps refusing the latest object although the latest objects are jointly
 					// appliable (e.g. two clusters swapped aliases: each update both claims a name the other still holds and
 					// releases the name the other waits for)
 					sig = "C11/latest-version-refused-forever"
-				case h.feat["unparsable-endpoint"]:
-					// a version whose sync failed half-way (gates, flow control and server names already applied, endpoints and
-					// policies not) was part of the history; one class whatever the observable, because the cluster typically
-					// cannot be updated at all afterwards (its recorded server names no longer agree with the manager)
-					sig = "C11/after-half-applied-sync"
+				case mode == "failed-sync" && h.anyFail():
+					// attributed to the observable that diverges and to the sub-syncer at which the cluster's last unappliable version failed
+					cl := lastFailClass(h.ups, d.Cluster)
+					if cl == "" {
+						cl = "of-other-cluster"
+					}
+					sig = "C11/" + d.Observable + "/after-failed-sync=" + cl
 				case d.Observable == "feature-gates":
 					sig = "C11/feature-gates/gate-stays-" + map[string]string{"true": "on", "false": "off"}[d.Hist] + "/latest-" + annClass(latest.Ann)
 				case d.Observable == "tls-certificate" && latest != nil && strings.Contains(latest.Cert, "-only-"):
@@ -993,8 +1103,13 @@ func TestCheck(t *testing.T) {
 		r.Require(r.Counter("requeues") >= int64(nh/4), "too few requeues")
 		r.Require(r.Counter("redeliveries") >= int64(nh/4), "too few re-deliveries")
 		r.Require(r.Counter("clusters_compared") >= int64(nh), "too few clusters compared")
-		for _, f := range []string{"gates", "schemas", "cert", "delete", "conflict", "stale-macro", "unparsable-endpoint"} {
+		for _, f := range []string{"gates", "schemas", "cert", "delete", "conflict", "stale-macro"} {
 			r.Require(feat[f] >= nh/20, "history feature "+f+" under-represented")
 		}
+		for _, f := range []string{"fail:feature-gates", "fail:client-ca", "fail:key-pair", "fail:endpoints", "fail:create", "partial-repair"} {
+			r.Require(feat[f] >= nh/40, "history feature "+f+" under-represented")
+		}
+		r.Require(r.Counter("unappliable_versions_applied") == 0, "instrument broken: a version that is meant to be unappliable was applied by the controller")
+		r.Require(r.Counter("failed_syncs") >= int64(nh/2), "too few syncs of unappliable versions actually failed")
 	})
 }
